@@ -18,7 +18,7 @@ TECHNIQUE = 'exhaustive window/slice/index enumeration per generated file agains
 RULE = ('files from vlib.model.gen_file (bias: many segments, no-data/unlisted segments, 1-4 chunks, lengths 0-5) incl. truncated copies; '
         'non-trivial = channel whose values span >=2 chunks or segments; distinct = per-channel tuple of (segment, chunk length) pieces + type')
 ASSUMPTIONS = ['read_data is only specified for offset >= 0 and length >= 0 or None']
-REQUIRED = ['slices_after_index', 'short_middle_files', 'long_files', 'windows', 'slices', 'indices', 'windows_crossing_boundary', 'index_errors_checked', 'step0_checked',
+REQUIRED = ['cross_channel_indices', 'staggered_files', 'daqmx_files', 'daqmx_windows', 'daqmx_slices', 'slices_after_index', 'short_middle_files', 'long_files', 'windows', 'slices', 'indices', 'windows_crossing_boundary', 'index_errors_checked', 'step0_checked',
             'contract:channel._read_channel_data.len', 'truncated_files']
 N = {'quick': 640, 'thorough': 20000}
 STEPS = [None, 1, -1, 2, -2, 3, -3, 0]
@@ -33,6 +33,12 @@ def gen_cases(tier, seed):
         yield {'s': seed * 1000003 + i, 'cut': False, 'raw_ts': i % 2 == 0, 'short_middle': True}
     for i in range(N[tier] // 8):
         yield {'s': seed * 1000003 + i, 'cut': False, 'raw_ts': False, 'same_total': True}
+    for i in range(N[tier] // 8):
+        yield {'s': seed * 1000003 + i, 'cut': False, 'raw_ts': False, 'staggered': True}
+    for i in range(N[tier] // 4):
+        yield {'s': seed * 1000003 + i, 'cut': False, 'raw_ts': False, 'daqmx': True}
+    for i in range(max(4, N[tier] // 1000)):
+        yield {'s': seed * 1000003 + i, 'cut': False, 'raw_ts': False, 'long': True, 'very': True}
 
 
 def shard_setup(ctx):
@@ -57,8 +63,12 @@ def shard_teardown(ctx):
 def build(case):
     rng = random.Random('c04/%d' % case['s'])
     if case.get('long'):
-        from checks.c05 import long_file
-        segs = long_file(rng)
+        from checks.c05 import long_file, very_long_file
+        segs = very_long_file(rng) if case.get('very') else long_file(rng)
+        return segs, M.encode_file(segs)[0], None, rng
+    if case.get('staggered'):
+        from checks.c05 import staggered_file
+        segs = staggered_file(rng)
         return segs, M.encode_file(segs)[0], None, rng
     if case.get('same_total'):
         from checks.c05 import same_total_file
@@ -102,9 +112,79 @@ def scalar_image(x):
     return ('num', C.norm_dtype(a.dtype), a.tobytes())
 
 
+def run_daqmx(case, ctx):
+    """DAQmx files: every window and a sample of slices, scaled (where the channel is scalable) and unscaled, lazy and eager."""
+    from nptdms import TdmsFile
+    from checks import c11 as DQ
+    f, rng = DQ.build({'s': case['s']})
+    blob = f.encode()[0]
+    ctx.count('daqmx_files')
+    eager = TdmsFile.read(io.BytesIO(blob))
+    with TdmsFile.open(io.BytesIO(blob)) as lazy:
+        for g in eager.groups():
+            for ech in g.channels():
+                lch = lazy[g.name][ech.name]
+                ctx.evaluation()
+                U = ech.read_data(scaled=False)
+                Uimg = {k: C.image(v) for k, v in U.items()} if isinstance(U, dict) else C.image(U)
+                try:
+                    Rimg = C.image(ech[:])
+                except ValueError:
+                    Rimg = None          # raw DAQmx channel without scaling information
+                n = len(ech)
+                sizes = [len(c) for c in lch.data_chunks()]
+                bounds = set(np.cumsum(sizes).tolist()[:-1]) if sizes else set()
+                if len(sizes) >= 2:
+                    ctx.distinct(('daqmx', tuple(sizes), f.signature()[:2]))
+                info = lambda **kw: dict(kw, path=ech.path, n=n, chunks=sizes, file=f.describe())
+                if n <= 16:
+                    wins = [(o, l) for o in range(n + 2) for l in list(range(n + 2)) + [None]]
+                else:
+                    edges = sorted({0, n} | {b + d for b in bounds for d in (-1, 0, 1)})
+                    wins = [(rng.choice(edges), rng.choice([None, 0, 1, 2, rng.randrange(n + 2)])) for _ in range(150)]
+                for mode, ch in (('lazy', lch), ('eager', ech)):
+                    for o, l in wins:
+                        if o < 0:
+                            continue
+                        sl = slice(o, None if l is None else o + l)
+                        ctx.count('daqmx_windows')
+                        try:
+                            got = ch.read_data(o, l, scaled=False)
+                            if isinstance(Uimg, dict):
+                                ok = isinstance(got, dict) and set(got) == set(Uimg) and all(
+                                    C.img_equal(C.image(got[k]), C.image_slice(Uimg[k], sl)) for k in Uimg)
+                            else:
+                                ok = C.img_equal(C.image(got), C.image_slice(Uimg, sl))
+                            if not ok:
+                                ctx.violation('daqmx-window/%s/unscaled-mismatch' % mode, info(offset=o, length=l))
+                            if Rimg is not None:
+                                got = ch.read_data(o, l)
+                                if not C.img_equal(C.image(got), C.image_slice(Rimg, sl)):
+                                    ctx.violation('daqmx-window/%s/scaled-mismatch' % mode, info(offset=o, length=l, got=C.short(C.image(got)),
+                                                                                                  want=C.short(C.image_slice(Rimg, sl))))
+                        except Exception as ex:
+                            ctx.violation('daqmx-window/%s/raises/%s' % (mode, util.exc_key(ex)), info(offset=o, length=l, exc=util.exc_detail(ex)))
+                    if Rimg is None:
+                        continue
+                    rngv = [None] + list(range(-n - 1, n + 2))
+                    for _ in range(60):
+                        a, b, c = rng.choice(rngv), rng.choice(rngv), rng.choice(STEPS[:-1])
+                        ctx.count('daqmx_slices')
+                        try:
+                            got = ch[a:b:c]
+                            if not C.img_equal(C.image(got), C.image_slice(Rimg, slice(a, b, c))):
+                                ctx.violation('daqmx-slice/%s/mismatch' % mode, info(slice=(a, b, c)))
+                        except Exception as ex:
+                            ctx.violation('daqmx-slice/%s/raises/%s' % (mode, util.exc_key(ex)), info(slice=(a, b, c), exc=util.exc_detail(ex)))
+
+
 def run_case(case, ctx):
     from nptdms import TdmsFile
+    if case.get('daqmx'):
+        return run_daqmx(case, ctx)
     segs, blob, cut, rng = build(case)
+    if case.get('staggered'):
+        ctx.count('staggered_files')
     if cut is not None:
         ctx.count('truncated_files')
     if case.get('long'):
@@ -142,6 +222,32 @@ def run_case(case, ctx):
                     ctx.distinct((tkind, tuple(pcs), cut is not None))
                 for mode, ch in (('lazy', lch), ('eager', ech)):
                     check_channel(ctx, case, segs, mode, ch, Rimg, R, n, bounds, tkind, rng, cut)
+        # ---- the same index looked up in one channel after another (lookups of different channels interleave)
+        full = {}
+        for g in eager.groups():
+            for ech in g.channels():
+                try:
+                    full[(g.name, ech.name)] = ech[:]
+                except Exception:
+                    pass
+        keys = [k for k in full if len(full[k])]
+        for _ in range(40 if keys else 0):
+            i = rng.randrange(max(len(full[k]) for k in keys))
+            order = keys[:]
+            rng.shuffle(order)
+            for k in order:
+                if i >= len(full[k]):
+                    continue
+                ctx.count('cross_channel_indices')
+                try:
+                    got = lazy[k[0]][k[1]][i]
+                except Exception as ex:
+                    ctx.violation('cross-channel-index/raises/%s' % util.exc_key(ex), {'index': i, 'channel': k, 'order': order,
+                                                                                       'segments': [s.describe() for s in segs][:6]})
+                    break
+                if scalar_image(got) != scalar_image(full[k][i]):
+                    ctx.violation('cross-channel-index/mismatch', {'index': i, 'channel': k, 'order': order, 'got': repr(got), 'want': repr(full[k][i]),
+                                                                   'segments': [s.describe() for s in segs][:6]})
     finally:
         lazy.close()
 
